@@ -2,6 +2,7 @@ import Driver.Codec
 import Driver.Extra
 import Rbacx.Spec.Combining
 import Rbacx.Spec.Operators
+import Rbacx.Spec.DenyByDefault
 /-
   Driver.Main — one JSON command per input line, one JSON answer per output line.
 -/
@@ -91,9 +92,20 @@ def handle (j : Json) : Except String Json := do
     let cfg ← decCfg (field j "cfg") consts
     let pol ← fieldVal j "policy"
     let req ← decReq (field j "req")
-    match guardEval o cfg pol req with
-    | .ok (d, evs) => pure (Json.mkObj [("ok", encDecision d evs)])
-    | .error e => pure (encErr e)
+    let model : Json :=
+      match guardEval o cfg pol req with
+      | .ok (d, evs) => Json.mkObj [("ok", encDecision d evs)]
+      | .error e => encErr e
+    -- optional: spec predicates evaluated on the implementation's observed decision
+    match field j "impl" with
+    | .null => pure model
+    | impl => do
+      let obls ← fieldVal impl "obligations"
+      let c01 : Json :=
+        match Spec.c01 o cfg pol req (fieldBool impl "allowed") (fieldStr impl "effect") obls.asList with
+        | some b => .bool b
+        | none => .null
+      pure (Json.mkObj [("model", model), ("spec_c01", c01)])
   | "eval-policy" => do
     let pol ← fieldVal j "policy"
     let env ← fieldVal j "env"
